@@ -44,11 +44,27 @@ static void RunRouting(vf::BS & bs)
    w.Pump();
    // a later SETDATA with the same path keeps the last value; re-sync the implicit parents that were later set explicitly (already handled by map semantics)
    static const char * const CL[] = {"*", "a", "b", "ab", "a*", "?", "zz", "(a|b)", "[ab]*"};
-   uint32 seq = 0; std::map<uint32, std::set<int> > expect; std::map<uint32, int> senderOf; std::set<uint32> hasSessionField; bool sameDepthKeys = false, mixedDepthKeys = false, usedFilter = false; uint64_t h = 5;
+   uint32 seq = 0; std::map<uint32, std::set<int> > expect; std::map<uint32, int> senderOf; std::set<uint32> hasSessionField; bool sameDepthKeys = false, mixedDepthKeys = false, usedFilter = false, routeReplaced = false, keylessAfterReplace = false; uint64_t h = 5;
    const uint32 nsend = 1+bs.u8()%8;
    for (uint32 s=0; s<nsend; s++)
    {
-      const int from = bs.u8()%NC; const uint32 what = 1000+(seq++);
+      const uint8_t fromByte = bs.u8(); const int from = fromByte%NC;
+      if ((fromByte>>2)%8 == 7)
+      {
+         // the sender replaces or removes its default route in mid-history: keyless Messages sent from now on follow the new route only
+         static const char * const DR2[] = {"/*/*/a", "/*/*/b*", "/h0/*", "ab", "/*/*", "/h1/*", "/*/*/zz", "b"};
+         const uint8_t k = bs.u8();
+         if (k%4 == 0) {MessageRef pm = GetMessageFromPool(PR_COMMAND_REMOVEPARAMETERS); (void) pm()->AddString(PR_NAME_KEYS, EscapeRegexTokens(PR_NAME_KEYS)); (void) w.Send(from, pm); pub[from].defaultRoute.clear(); H("c"+std::to_string(from)+" removes its default route");}
+         else
+         {
+            MessageRef pm = GetMessageFromPool(PR_COMMAND_SETPARAMETERS); std::vector<std::string> nr; nr.push_back(DR2[(k>>2)%8]); if ((k%4 == 3)&&(DR2[(k>>5)%8] != nr[0])) nr.push_back(DR2[(k>>5)%8]);
+            std::string l = "c"+std::to_string(from)+" replaces its default route by"; for (size_t q=0; q<nr.size(); q++) {(void) pm()->AddString(PR_NAME_KEYS, nr[q].c_str()); l += " "+nr[q];}
+            (void) w.Send(from, pm); if (pub[from].defaultRoute.size()) routeReplaced = true; pub[from].defaultRoute = nr; H(l);
+         }
+         if (bs.flip()) w.Pump();
+         continue;
+      }
+      const uint32 what = 1000+(seq++);
       MessageRef m = GetMessageFromPool(what); (void) m()->AddInt32("payload", (int32)what);
       if (bs.u8()%3 == 0) {(void) m()->AddString(PR_NAME_SESSION, (bs.flip()) ? w.c[(from+1)%NC]->id.c_str() : "999999"); hasSessionField.insert(what);}       // a forged sender id: the server must replace it
       const uint8_t nkSel = bs.u8()%8; const uint32 nk = (nkSel == 0) ? 0 : (1+(nkSel%3));
@@ -76,6 +92,7 @@ static void RunRouting(vf::BS & bs)
       (void) w.Send(from, m); senderOf[what] = from; h = vf::HashStr(l, h);
       // expected receivers, clause by clause
       std::vector<std::string> pats = absPats; std::vector<int> fvs = filterV;
+      if ((nk == 0)&&(routeReplaced)) keylessAfterReplace = true;
       if (nk == 0) {for (size_t q=0; q<pub[from].defaultRoute.size(); q++) pats.push_back(Absolute(pub[from].defaultRoute[q])); if (pats.empty()) pats.push_back("/*/*");}     // no keys: the default route, else everybody
       std::set<int> & e = expect[what];
       for (int r=0; r<NC; r++)
@@ -103,7 +120,7 @@ static void RunRouting(vf::BS & bs)
    // per (sender, receiver) FIFO
    for (int r=0; r<NC; r++) {std::map<int, uint32> last; for (size_t k=0; k<order[r].size(); k++) {const int s = senderOf[order[r][k]]; if ((last.count(s))&&(last[s] > order[r][k])) vf::Fail("session %d received Message #%u from session %d after #%u: out of order: history [%s]", r, order[r][k], s, last[s], g_hist.c_str()); last[s] = order[r][k];}}
    w.Stop();
-   vf::Count("mode_routing"); vf::Count("routed_messages", nsend); if (sameDepthKeys) vf::Count("case_two_keys_of_equal_depth"); if (mixedDepthKeys) vf::Count("case_keys_of_different_depths"); if (usedFilter) vf::Count("case_with_filters");
+   vf::Count("mode_routing"); vf::Count("routed_messages", nsend); if (sameDepthKeys) vf::Count("case_two_keys_of_equal_depth"); if (mixedDepthKeys) vf::Count("case_keys_of_different_depths"); if (usedFilter) vf::Count("case_with_filters"); if (keylessAfterReplace) vf::Count("case_keyless_message_after_default_route_was_replaced");
    if ((sameDepthKeys)||(mixedDepthKeys)) {vf::NonTrivial(h); if (vf::WantSample()) vf::Sample(g_hist);}
 }
 
